@@ -741,6 +741,19 @@ func (x g) rule(p pred, preds []pred) string {
 		if x.bad(6) {
 			return x.term(1, bound)
 		}
+		if x.chance(8) && len(bound) > 0 {
+			// a function application in the head; half of them aggregating functions, which bounds checking
+			// treats specially in heads, at one to three arguments (function arity is not checked in heads)
+			if x.chance(50) {
+				r := reducers[x.n(0, len(reducers)-1)]
+				parts := make([]string, x.n(1, 3))
+				for j := range parts {
+					parts[j] = x.pick(bound)
+				}
+				return r.name + "(" + strings.Join(parts, ", ") + ")"
+			}
+			return x.fnApp(1, func(int) string { return x.pick(bound) })
+		}
 		return headVar()
 	})
 	if p.temporal && (!x.hot || x.chance(75)) || x.bad(3) {
